@@ -111,46 +111,50 @@ def commit3 (h : Nat) (fb : Block) (st : State) : List SW :=
   [.saveBlock (h + 1) fb, .updateState st, .setHeight (h + 1)]
 
 theorem finish_tx (c : Producer.Cfg) (n : Producer.Node) (ws : List SW) (sh : SHeader) (d : Data) (ldh : Bytes)
-    (hh : sh.hdr.height = n.store.height + 1) :
-    ((finish c n ws sh d ldh .ok).1 = n ∧ (finish c n ws sh d ldh .ok).2.1 = ws) ∨
-    (∃ fb st, fb.data.txs = d.txs ∧ fb.sh.hdr.time = sh.hdr.time ∧ st.lastHeight = n.store.height + 1 ∧
-      (finish c n ws sh d ldh .ok).2.1 = ws ++ commit3 n.store.height fb st ∧
-      (finish c n ws sh d ldh .ok).1.store = n.store.applyAll (commit3 n.store.height fb st)) := by
+    (ex : ExecResp) (hh : sh.hdr.height = n.store.height + 1) :
+    ((finish c n ws sh d ldh ex).1 = n ∧ (finish c n ws sh d ldh ex).2.1 = ws) ∨
+    (ex = .ok ∧ ∃ fb st, fb.data.txs = d.txs ∧ fb.sh.hdr.time = sh.hdr.time ∧ st.lastHeight = n.store.height + 1 ∧
+      (finish c n ws sh d ldh ex).2.1 = ws ++ commit3 n.store.height fb st ∧
+      (finish c n ws sh d ldh ex).1.store = n.store.applyAll (commit3 n.store.height fb st)) := by
   unfold finish
-  simp only
-  split
-  · exact Or.inl ⟨rfl, rfl⟩
-  · refine Or.inr ⟨Block.mk (signed c sh) (withMeta d sh.hdr ldh) (signed c sh).sig,
-      { nextState n.lastState sh.hdr (execRoot n.lastState.appHash d.txs) with daHeight := n.daHeight },
-      rfl, rfl, ?_, ?_, ?_⟩
-    · simp [nextState, hh]
-    · simp [signed, hh, setHeightW, commit3]
-    · simp [signed, hh, setHeightW, commit3, Store.applyAll]
+  cases ex with
+  | fail => exact Or.inl ⟨rfl, rfl⟩
+  | ok =>
+    simp only
+    split
+    · exact Or.inl ⟨rfl, rfl⟩
+    · refine Or.inr ⟨trivial, Block.mk (signed c sh) (withMeta d sh.hdr ldh) (signed c sh).sig,
+        { nextState n.lastState sh.hdr (execRoot n.lastState.appHash d.txs) with daHeight := n.daHeight },
+        rfl, rfl, ?_, ?_, ?_⟩
+      · simp [nextState, hh]
+      · simp [signed, hh, setHeightW, commit3]
+      · simp [signed, hh, setHeightW, commit3, Store.applyAll]
 
 /-- shape of the store writes of a step that found a block waiting at `height + 1` -/
-def PendShape (n : Producer.Node) (T : List Bytes) (τ : Nat) (r : Producer.Node × List SW × Outcome) : Prop :=
+def PendShape (n : Producer.Node) (T : List Bytes) (τ : Nat) (ex : ExecResp) (r : Producer.Node × List SW × Outcome) : Prop :=
   (r.1 = n ∧ r.2.1 = []) ∨
-  (∃ fb st, fb.data.txs = T ∧ fb.sh.hdr.time = τ ∧ st.lastHeight = n.store.height + 1 ∧
+  (ex = .ok ∧ ∃ fb st, fb.data.txs = T ∧ fb.sh.hdr.time = τ ∧ st.lastHeight = n.store.height + 1 ∧
     r.2.1 = commit3 n.store.height fb st ∧ r.1.store = n.store.applyAll r.2.1)
 
 /-- shape of the store writes of a step that built a fresh block from the batch `T` stamped `τ` -/
-def FreshShape (n : Producer.Node) (T : List Bytes) (τ : Nat) (r : Producer.Node × List SW × Outcome) : Prop :=
+def FreshShape (n : Producer.Node) (T : List Bytes) (τ : Nat) (ex : ExecResp) (r : Producer.Node × List SW × Outcome) : Prop :=
   ∃ v eb, eb.data.txs = T ∧ eb.sh.hdr.time = τ ∧
     ((r.2.1 = [.setMeta lastBatchDataKey v, .saveBlock (n.store.height + 1) eb]) ∨
-     (∃ fb st, fb.data.txs = T ∧ fb.sh.hdr.time = τ ∧ st.lastHeight = n.store.height + 1 ∧
+     (ex = .ok ∧ ∃ fb st, fb.data.txs = T ∧ fb.sh.hdr.time = τ ∧ st.lastHeight = n.store.height + 1 ∧
        r.2.1 = [.setMeta lastBatchDataKey v, .saveBlock (n.store.height + 1) eb] ++ commit3 n.store.height fb st)) ∧
     r.1.store = n.store.applyAll r.2.1
 
-/-- **the writes of a production step whose execution succeeds**: with a block waiting at `height + 1` the step
+/-- **the writes of a production step** (`ex` = the execution layer's answer; a failing execution leaves only the
+first alternative of each shape: nothing written / cursor and early save written): with a block waiting at `height + 1` the step
 commits that block (its transactions, its time) or writes nothing; otherwise, asked with a batch that is not stamped
 before the last block, it writes the batch cursor, then saves the fresh block with exactly the batch's transactions
 early, then (if the block validates) commits it. -/
 theorem publish_tx {c : Producer.Cfg} {n : Producer.Node} (hi : Inv c n) (hsg : c.signerAddr = c.proposerAddr)
-    (T : List Bytes) (τ : Nat) (hτ : n.lastState.lastTime ≤ τ) :
+    (T : List Bytes) (τ : Nat) (hτ : n.lastState.lastTime ≤ τ) (ex : ExecResp) :
     (∀ pb, n.store.getBlock (n.store.height + 1) = some pb →
-      ∀ resp, PendShape n pb.data.txs pb.sh.hdr.time (publish c n resp .ok)) ∧
+      ∀ resp, PendShape n pb.data.txs pb.sh.hdr.time ex (publish c n resp ex)) ∧
     (n.store.getBlock (n.store.height + 1) = none → pendingRefuses c n = false → (prevInfo c n.store).isSome →
-      FreshShape n T τ (publish c n (.batch T τ []) .ok)) := by
+      FreshShape n T τ ex (publish c n (.batch T τ []) ex)) := by
   constructor
   · intro pb hpb resp
     unfold publish
@@ -159,9 +163,9 @@ theorem publish_tx {c : Producer.Cfg} {n : Producer.Node} (hi : Inv c n) (hsg : 
     · split
       · exact Or.inl ⟨rfl, rfl⟩
       · simp only [hpb]
-        rcases finish_tx c n [] pb.sh pb.data _ (hi.pend pb hpb).height with ⟨a1, a2⟩ | ⟨fb, st, b1, b2, b3, b4, b5⟩
+        rcases finish_tx c n [] pb.sh pb.data _ ex (hi.pend pb hpb).height with ⟨a1, a2⟩ | ⟨hex, fb, st, b1, b2, b3, b4, b5⟩
         · exact Or.inl ⟨a1, a2⟩
-        · refine Or.inr ⟨fb, st, b1, b2, b3, by simpa using b4, ?_⟩
+        · refine Or.inr ⟨hex, fb, st, b1, b2, b3, by simpa using b4, ?_⟩
           rw [b5, b4]; rfl
   · intro hnone hnr hprev
     unfold publish
@@ -198,11 +202,11 @@ theorem publish_tx {c : Producer.Cfg} {n : Producer.Node} (hi : Inv c n) (hsg : 
         { n with store := (n.store.apply (.setMeta lastBatchDataKey (batchDataToBytes []))).apply
                    (.saveBlock (n.store.height + 1) (Block.mk blk.1 blk.2 .none)), lastBatchData := [] }
         [.setMeta lastBatchDataKey (batchDataToBytes []), .saveBlock (n.store.height + 1) (Block.mk blk.1 blk.2 .none)]
-        blk.1 blk.2 ldh f1 with ⟨a1, a2⟩ | ⟨fb, st, b1, b2, b3, b4, b5⟩
+        blk.1 blk.2 ldh ex f1 with ⟨a1, a2⟩ | ⟨hex, fb, st, b1, b2, b3, b4, b5⟩
       · refine ⟨batchDataToBytes [], Block.mk blk.1 blk.2 .none, f8, f4, Or.inl a2, ?_⟩
         rw [a1, a2]; rfl
       · refine ⟨batchDataToBytes [], Block.mk blk.1 blk.2 .none, f8, f4,
-          Or.inr ⟨fb, st, by rw [b1, f8], by rw [b2, f4], b3, b4⟩, ?_⟩
+          Or.inr ⟨hex, fb, st, by rw [b1, f8], by rw [b2, f4], b3, b4⟩, ?_⟩
         rw [b5, b4]
         simp only [Producer.applyAll_append]
         rfl
